@@ -101,16 +101,21 @@ def judge(ctx, scs, obs, keys_of_interest, classify):
             want = o['backend_host'] if e['outHost'] == 'BACKEND' else e['outHost']
             if o['host'] != want:
                 viol('host_wrong', 'backend saw Host %r, specification says %r' % (o['host'], want), 'Host')
+        if 'target' in keys_of_interest:
+            if o.get('uri') != req['path'] or o.get('method') != req['method']:
+                viol('request_line_changed', 'backend saw %r %r, client sent %r %r' % (o.get('method'), o.get('uri'), req['method'], req['path']), 'request-line')
         for k in keys_of_interest:
-            if k == 'host':
+            if k in ('host', 'target'):
                 continue
             want = [subst(v, o) for v in e['out'].get(k, [])]
             got = o['headers'].get(k, [])
+            if k == 'Accept-Encoding' and not want:
+                continue    # dont-care: Go's transport asks for gzip (and undoes it) when the client sent no Accept-Encoding
             if got != want:
                 viol('header_mismatch', 'backend saw %s = %r, specification says %r' % (k, got, want), k)
         if len(samples) < 6 and (sc['id'] % 37 == 0):
-            samples.append({'scenario': brief(req), 'spec_backend_view': {k: [subst(v, o) for v in e['out'].get(k, [])] for k in keys_of_interest if k != 'host'},
-                            'observed': {k: o['headers'].get(k, []) for k in keys_of_interest if k != 'host'}, 'status': o['status']})
+            samples.append({'scenario': brief(req), 'spec_backend_view': {k: [subst(v, o) for v in e['out'].get(k, [])] for k in keys_of_interest if k not in ('host', 'target')},
+                            'observed': {k: o['headers'].get(k, []) for k in keys_of_interest if k not in ('host', 'target')}, 'request_line': [o.get('method'), o.get('uri')], 'status': o['status']})
     if n == 0:
         raise vf.Inconclusive('nothing replayed')
     return n, samples
